@@ -216,6 +216,16 @@ func (g *gen) leaf() map[string]interface{} {
 		l["X-Mixed-Case"] = map[string]interface{}{"k": fmt.Sprintf("t%d", g.uniq)} // extension keys keep their spelling
 	case 2:
 		l["unknownKeyword"] = fmt.Sprintf("u%d", g.uniq) // unknown schema keywords survive too
+	case 3:
+		// array-valued keywords whose order belongs to the document (not sorted, with a repeat)
+		l["type"] = "object"
+		l["required"] = []interface{}{"name", "id", "email", "id2"}
+	case 4:
+		l["enum"] = []interface{}{"zulu", "alpha", fmt.Sprintf("m%d", g.uniq), "alpha2"}
+	case 5:
+		// a vendor extension next to an unknown keyword (two different containers in the typed form)
+		l["x-owner"] = fmt.Sprintf("team%d", g.uniq)
+		l["$comment"] = fmt.Sprintf("c%d", g.uniq)
 	}
 	return l
 }
